@@ -622,6 +622,25 @@ def unaddressed_rewrite(creation_order, junk=None):
             sorted((s.referent.address - base, s.at_end, s.name) for s in m.symbols if s.name.startswith(".L")))
 
 
+def scratch_order_harness(ctx):
+    """the registers a patch is handed as scratch registers come from ABI._scratch_registers() in that order (_allocate_patch_registers
+    takes a prefix of it): it has to be a LIST in the ABI's own register order (all_registers()), without duplicates -- a value that
+    does not depend on how a set of registers happens to iterate in this process"""
+    from gtirb_rewriting import abi as ABIM
+    keys = sorted(ABIM._ABIS, key=lambda k: (k[0].name, k[1].name))
+    isa, ff = keys[ctx.choose(len(keys), "abi")]
+    abi = ABIM._ABIS[(isa, ff)]
+    regs = abi._scratch_registers()
+    allr = abi.all_registers()
+    ctx.cover("enumerated")
+    idx = [next((i for i, r in enumerate(allr) if r == x), None) for x in regs] if isinstance(regs, (list, tuple)) else None
+    ok = idx is not None and None not in idx and all(a < b for a, b in zip(idx, idx[1:]))
+    ctx.prove("ABI._scratch_registers/a-list-in-the-ABIs-own-register-order-without-duplicates", z3.BoolVal(bool(ok)),
+              note="%s/%s: %s" % (isa.name, ff.name, [getattr(r, "name", r) for r in regs][:12] if idx is not None else type(regs).__name__))
+    again = abi._scratch_registers()
+    ctx.prove("ABI._scratch_registers/same-answer-every-time", z3.BoolVal(list(again) == list(regs)))
+
+
 def c11_bounded(tier, seed):
     def run():
         br = BResult()
@@ -739,4 +758,5 @@ def jobs_c11(tier="quick", seed=0):
     for j in kernel_edges.jobs(tier, seed):
         j.id = "C11/" + j.id
         yield j
+    yield Job("C11/scratch-register-order", scratch_order_harness, kind="E", func="gtirb_rewriting.abi:ABI._scratch_registers (all registered ABIs)", expect_cover=("enumerated",))
     yield Job("C11/hash-seeds-bounded", c11_bounded(tier, seed), kind="B", func="gtirb_rewriting.rewriting:RewritingContext.apply")
